@@ -29,6 +29,7 @@ from ..world import obj
 
 from pybrops.popgen.gmat.DensePhasedGenotypeMatrix import DensePhasedGenotypeMatrix
 from pybrops.popgen.gmap.StandardGeneticMap import StandardGeneticMap
+from pybrops.popgen.gmap.ExtendedGeneticMap import ExtendedGeneticMap
 from pybrops.popgen.gmap.HaldaneMapFunction import HaldaneMapFunction
 from pybrops.popgen.gmap.KosambiMapFunction import KosambiMapFunction
 from pybrops.breed.prot.mate import util as putil
@@ -81,7 +82,13 @@ def generate(R, tier):
         sc.update(fn=R.choice(["mat_meiosis", "dense_meiosis"]), N=200000, xosrc="map")
     else:
         sc.update(prot=R.choice(["2w", "2wdh", "self", "4w"]), N=40000, nself=R.choice([1, 2]), xosrc="map")
+    # markers may be handed to the matrix in any order (grouping sorts them; every per-marker array has to follow)
+    sc["shuffled"] = R.random() < 0.35
     if sc["xosrc"] == "map":
+        # the map: its points coincide with the markers, or it has fewer points (markers between them are interpolated,
+        # markers outside them extrapolated); plain or extended map class
+        sc["knots"] = R.choice(["coincide", "coincide", "sparse"])
+        sc["mapcls"] = R.choice(["standard", "standard", "extended"])
         sc["mapfn"] = R.choice(["haldane", "haldane", "kosambi"])
         # history: the matrix may have been mapped before, onto another map and/or with another map function
         sc["remap"] = None if R.random() < 0.6 else {"factor": R.choice([0.25, 0.5, 2.0, 3.0]), "mapfn": R.choice(["haldane", "kosambi"])}
@@ -89,6 +96,11 @@ def generate(R, tier):
 
 
 def shrink(sc):
+    for k, plain in (("shuffled", False), ("knots", "coincide"), ("mapcls", "standard"), ("mapfn", "haldane")):
+        if sc.get(k) not in (None, plain):
+            c = copy.deepcopy(sc)
+            c[k] = plain
+            yield c
     if sc.get("remap"):
         c = copy.deepcopy(sc)
         c["remap"] = None
@@ -107,6 +119,10 @@ def shrink(sc):
         yield c
 
 
+XO_GIVEN = [None]   # crossover probabilities handed to the matrix, in map order (set by execute)
+KNOTS = {}          # points of the sparse map of the design being executed (set by _layout)
+
+
 def _layout(sc):
     """Chromosome labels, positions and crossover probabilities for the design."""
     R = random.Random(sc["seed"])
@@ -118,6 +134,31 @@ def _layout(sc):
         ix = numpy.flatnonzero(chrgrp == c)
         phypos[ix] = numpy.cumsum([R.randint(1, 50) for _ in ix])
         genpos[ix] = numpy.cumsum([R.choice([0.0, 0.01, 0.05, 0.1, 0.3, 0.7, R.random()]) if k else 0.0 for k, _ in enumerate(ix)])
+    KNOTS.clear()
+    if sc["xosrc"] == "map" and sc.get("knots") == "sparse":
+        kc, kp, kg = [], [], []
+        for c in numpy.unique(chrgrp):
+            ix = numpy.flatnonzero(chrgrp == c)
+            if len(ix) < 2:
+                continue
+            pick = sorted(R.sample(range(len(ix)), R.randint(2, len(ix))))
+            kpos = [int(phypos[ix[i]]) for i in pick]
+            kgen = list(numpy.cumsum([R.choice([0.0, 0.02, 0.1, 0.4, R.random()]) for _ in pick]))
+            # marker positions on this map: linear between its points, the end segments continued outside them
+            for j in ix:
+                x = float(phypos[j])
+                if x <= kpos[0]:
+                    a, b = 0, 1
+                elif x >= kpos[-1]:
+                    a, b = len(kpos) - 2, len(kpos) - 1
+                else:
+                    b = next(t for t in range(len(kpos)) if kpos[t] >= x)
+                    a = b - 1
+                genpos[j] = kgen[a] + (x - kpos[a]) * (kgen[b] - kgen[a]) / float(kpos[b] - kpos[a])
+            kc += [int(c)] * len(kpos)
+            kp += kpos
+            kg += [float(v) for v in kgen]
+        KNOTS.update(chr=numpy.array(kc, dtype=chrgrp.dtype), phy=numpy.array(kp, dtype=int), gen=numpy.array(kg, dtype=float))
     if sc["xosrc"] == "arbitrary":
         xo = numpy.array([R.choice([0.0, 0.0, 0.5, 0.1, 0.25, 0.3, 0.01, 0.499, R.random() / 2, 0.65, 0.8, 1.0, R.random()]) for _ in range(m)])
         for c in numpy.unique(chrgrp):
@@ -134,21 +175,32 @@ def _parents(sc, chrgrp, phypos, genpos, xo, ntaxa, hetero):
     for t in range(ntaxa):
         mat[0, t, :] = 2 * t if hetero else t
         mat[1, t, :] = 2 * t + 1 if hetero else t
-    pg = DensePhasedGenotypeMatrix(mat, taxa=obj(["p%d" % i for i in range(ntaxa)]), taxa_grp=numpy.zeros(ntaxa, dtype=int),
-                                   vrnt_chrgrp=chrgrp, vrnt_phypos=phypos, vrnt_name=obj(["m%d" % i for i in range(m)]),
-                                   vrnt_genpos=genpos if xo is not None else None, vrnt_xoprob=xo)
+    od = numpy.arange(m)
+    if sc.get("shuffled"):
+        random.Random(sc["seed"] + 17).shuffle(od)
+    pg = DensePhasedGenotypeMatrix(mat[:, :, od], taxa=obj(["p%d" % i for i in range(ntaxa)]), taxa_grp=numpy.zeros(ntaxa, dtype=int),
+                                   vrnt_chrgrp=chrgrp[od], vrnt_phypos=phypos[od], vrnt_name=obj(["m%d" % i for i in od]),
+                                   vrnt_genpos=genpos[od] if xo is not None else None, vrnt_xoprob=xo[od] if xo is not None else None)
     pg.group_vrnt()
+    if [str(v) for v in pg.vrnt_name.tolist()] != ["m%d" % i for i in range(m)]:
+        return "misordered"
     if xo is None:
         # genetic maps are defined for chromosomes with at least two markers (C11's domain)
         if any(int((chrgrp == c).sum()) < 2 for c in numpy.unique(chrgrp)):
             return None
         # positions of the map coincide with the markers: interpolation returns the stored positions
-        gmap = StandardGeneticMap(vrnt_chrgrp=chrgrp, vrnt_phypos=phypos, vrnt_genpos=genpos)
+        kc, kp, kg = (KNOTS["chr"], KNOTS["phy"], KNOTS["gen"]) if KNOTS else (chrgrp, phypos, genpos)
+
+        def mkmap(gen):
+            if sc.get("mapcls") == "extended":
+                return ExtendedGeneticMap(vrnt_chrgrp=kc, vrnt_phypos=kp, vrnt_stop=kp, vrnt_genpos=gen)
+            return StandardGeneticMap(vrnt_chrgrp=kc, vrnt_phypos=kp, vrnt_genpos=gen)
+        gmap = mkmap(kg)
         # a chromosome needs two map points for a spline; pad single-marker chromosomes
         try:
             rm = sc.get("remap")
             if rm:
-                old = StandardGeneticMap(vrnt_chrgrp=chrgrp, vrnt_phypos=phypos, vrnt_genpos=genpos * rm["factor"])
+                old = mkmap(kg * rm["factor"])
                 pg.interp_xoprob(old, MAPFN[rm["mapfn"]]())
             pg.interp_xoprob(gmap, MAPFN[sc.get("mapfn", "haldane")]())
         except Exception:
@@ -162,7 +214,7 @@ def _xo_ref(sc, pg, chrgrp, genpos):
     start and the map function of the distance to the previous marker on the map applied
     last, computed here."""
     if sc["xosrc"] != "map":
-        return numpy.asarray(pg.vrnt_xoprob, dtype=float)
+        return numpy.asarray(XO_GIVEN[0], dtype=float)
     out = numpy.empty(len(genpos))
     for j in range(len(genpos)):
         if j == 0 or chrgrp[j] != chrgrp[j - 1]:
@@ -239,6 +291,7 @@ def _check_gametes(sc, G, xo, chrgrp, genpos, V, C, exact, nsite):
 def execute(sc):
     V, log, faults, probes = [], [], {}, {}
     chrgrp, phypos, genpos, xo = _layout(sc)
+    XO_GIVEN[0] = None if xo is None else numpy.array(xo, dtype=float, copy=True)
     kind = sc["kind"]
     strat = kind.startswith("strat")
     script = [{"method": "uniform", "mode": "stratified"}, {"method": "random", "mode": "stratified"}] if strat else []
@@ -247,6 +300,9 @@ def execute(sc):
     ncmp = 0
     if kind in ("strat-low", "real-map"):
         pg = _parents(sc, chrgrp, phypos, genpos, xo, 1, True)
+        if isinstance(pg, str):
+            V.append(viol("markers-sorted-with-their-data", "DensePhasedGenotypeMatrix.group_vrnt", "order", "grouping a matrix built from shuffled markers did not restore map order"))
+            return _out(sc, V, log, faults, probes, 0, g)
         if pg is None:
             return _out(sc, V, log, faults, probes, 0, g)
         xo_eff = numpy.asarray(pg.vrnt_xoprob, dtype=float)
@@ -270,6 +326,9 @@ def execute(sc):
         # inbred parents make the later meioses of the multi-way protocols readable (which founder pair / which founder)
         hetero = not isdh and not (sc.get("inbred") and sc["prot"] in ("3w", "4w"))
         pg = _parents(sc, chrgrp, phypos, genpos, xo, 4, hetero)
+        if isinstance(pg, str):
+            V.append(viol("markers-sorted-with-their-data", "DensePhasedGenotypeMatrix.group_vrnt", "order", "grouping a matrix built from shuffled markers did not restore map order"))
+            return _out(sc, V, log, faults, probes, 0, g)
         if pg is None:
             return _out(sc, V, log, faults, probes, 0, g)
         xo_eff = numpy.asarray(pg.vrnt_xoprob, dtype=float)
@@ -330,6 +389,9 @@ def execute(sc):
         cls, npar, isdh = PROT[sc["prot"]]
         C = cls.__name__ + ".mate->SelfCross.mate"
         pg = _parents(sc, chrgrp, phypos, genpos, xo, 4, False)
+        if isinstance(pg, str):
+            V.append(viol("markers-sorted-with-their-data", "DensePhasedGenotypeMatrix.group_vrnt", "order", "grouping a matrix built from shuffled markers did not restore map order"))
+            return _out(sc, V, log, faults, probes, 0, g)
         if pg is None:
             return _out(sc, V, log, faults, probes, 0, g)
         xo_eff = numpy.asarray(pg.vrnt_xoprob, dtype=float)
@@ -357,6 +419,9 @@ def execute(sc):
         cls, npar, isdh = PROT[sc["prot"]]
         C = cls.__name__ + ".mate"
         pg = _parents(sc, chrgrp, phypos, genpos, xo, 4, False)
+        if isinstance(pg, str):
+            V.append(viol("markers-sorted-with-their-data", "DensePhasedGenotypeMatrix.group_vrnt", "order", "grouping a matrix built from shuffled markers did not restore map order"))
+            return _out(sc, V, log, faults, probes, 0, g)
         if pg is None:
             return _out(sc, V, log, faults, probes, 0, g)
         if sc["prot"] == "self":
